@@ -268,6 +268,7 @@ fn build_validation_entry_diagnostic(
 
     let resolved_path = format_path_with_resolved_leaf(path_key, &resolved_leaf);
     let base_msg = format!("validation error: {entry} for `{resolved_path}`");
+    let base_msg = crate::de_error::display_text(base_msg.into()).into_owned();
 
     let labels = build_validation_labels(src, ref_loc, def_loc);
 
